@@ -18,7 +18,7 @@ def op0(op, **kw):
         "op": op, "name": "", "raised": "", "lib": True, "none": False, "flag": False, "bytes": [], "ident": "",
         "attrs": [], "sd": "", "snames": [], "idx": [],
         "meta": {"ident": "", "station": dict(V0), "epoch": dict(V0), "sats": 0, "cells": 0},
-        "sats": [], "cells": [], "layers": [], "names": [],
+        "sats": [], "cells": [], "layers": [], "names": [], "lines": [],
     }
     rec.update(kw)
     return rec
@@ -143,6 +143,19 @@ def _do_op(rec, msg, op, fields, labelmsm, name, value):
             idx = sorted({0, 7, 8, 11, len(pl) * 8 - 1} | {(i * 37) % (len(pl) * 8) for i in range(12)}) if pl else []
             rec["idx"] = idx
             rec["bytes"] = [int(get_bit(pl, i)) for i in idx]
+        elif op == "tow2utc":
+            from pyrtcm.rtcmhelpers import tow2utc
+
+            pl = bytes(msg.payload)
+            seedv = int.from_bytes(pl[:8].ljust(8, b"\0"), "big")
+            tows = [0, 1, 17999, 18000, 18001, 86399999, 86400000, 86417999, 86418000, 604799999, 387092000]
+            tows += [(seedv >> s) % 604800000 for s in (0, 7, 19, 31)]
+            rec["idx"] = tows
+            for t in tows:
+                tm = tow2utc(t)
+                if tm.microsecond % 1000:
+                    raise AssertionError(f"sub-millisecond result for tow={t}")
+                rec["lines"].append([tm.hour, tm.minute, tm.second, tm.microsecond // 1000])
         elif op == "len2bytes":
             from pyrtcm.rtcmhelpers import len2bytes
 
